@@ -64,6 +64,8 @@ def template_init(j=0):
                              if n.startswith(('geophires_monte_carlo', 'geophires_x_client', 'hip_ra'))]
     # warm-up outside any simulation: triggers the lazy imports of both simulators
     _warm_up()
+    # object addresses (id()) seen by repository code are simulated (kernel._sim_id)
+    K.install_id_seam(('geophires_x', 'geophires_x_client', 'geophires_monte_carlo', 'hip_ra', 'hip_ra_x'))
 
 
 def _wrap_simulator(mod, attr, label):
